@@ -6,6 +6,7 @@
 //
 ///////////////////////////////////////////////////////////////////////////////
 #define CPPCMS_SOURCE
+#include <booster/verif_hooks.h>
 #include <cppcms/url_dispatcher.h>
 #include <cppcms/http_context.h>
 #include <cppcms/http_request.h>
@@ -429,11 +430,13 @@ bool connection::nonblocking_write(booster::aio::const_buffer const &buf,bool eo
 	}
 	if(n == 0) {
 		append_pending(new_data);
+		CPPCMS_VERIF_PROBE("cgi.nonblocking_write.nothing_accepted");
 	}
 	else {
 		std::vector<char> tmp;
 		pending_output_.swap(tmp); 
 		// after swapping output still points to a valid buffer
+		CPPCMS_VERIF_PROBE("cgi.nonblocking_write.partial_with_remainder");
 		append_pending(output + n);
 	}
 	if(e && socket().would_block(e)) {
